@@ -61,12 +61,16 @@ def strategy(cell, tier):
             "a": gen.vec((s,)),
             "mask": st.lists(st.booleans(), min_size=d, max_size=d),
             "pert": st.sampled_from(("ulp", "tiny", "small", "big")),
+            # exact boundary values in the stored coordinates (zero radius with an arbitrary angle, zero components, -0.0)
+            "special": st.sampled_from((None, None, None, "zero0", "zero1", "zero_all", "negzero0", "zero_last")),
             "rtol": tol, "atol": tol, "rfac": st.floats(1.0, 1e4), "afac": st.floats(1.0, 1e4),
         }))
     return st.tuples(*parts).map(list)
 
 
 def _perturb(x, kind):
+    if x == 0 and kind in ("ulp", "tiny", "small"):
+        return {"ulp": 5e-324, "tiny": 1e-300, "small": 1e-9}[kind]
     if kind == "ulp":
         return math.nextafter(x, math.inf)
     if kind == "tiny":
@@ -84,6 +88,23 @@ def _rows(cell, sub):
     if not R.representable(sa, ac):
         return None
     ra = tuple(float(x) for x in R.from_cartesian(sa, ac))
+    sp = sub.get("special")
+    if sp:
+        ra = list(ra)
+        if sp == "zero0":
+            ra[0] = 0.0
+        elif sp == "negzero0":
+            ra[0] = -0.0
+        elif sp == "zero1":
+            ra[1] = 0.0
+        elif sp == "zero_last":
+            ra[-1] = 0.0
+        else:
+            ra = [0.0 if R.coord_names(sa)[i] not in ("theta",) else x for i, x in enumerate(ra)]
+        ra = tuple(ra)
+        ac = R.to_cartesian(sa, ra)
+        if any(not (x == x) or abs(x) == float("inf") for x in [float(v) for v in ac]):
+            return None
     mask = sub["mask"]
     if sa == sb:
         rb = tuple(_perturb(x, sub["pert"]) if m else x for x, m in zip(ra, mask))
